@@ -69,7 +69,10 @@ THEOREMS = [
         "matcher_output_wf", "pipeline_same_lists", "pipeline_label_ok_agrees", "pipeline_conservation", "pipeline_accounting_perm",
         "pipeline_num_total", "pipeline_tp_fp_exactly_one", "pipeline_history_conservation",
     ]
-]
+] + (
+    # decision tables of is_label_correct / is_result_correct / get_status, regenerated from the source on every run
+    ["PEval.KernelStatus.labelCorrect_table_check", "PEval.KernelStatus.resultCorrect_table_check", "PEval.KernelStatus.status_table_check", "PEval.KernelStatus.labelCorrect_code_table_eq_model", "PEval.KernelStatus.resultCorrect_code_table_eq_model", "PEval.KernelStatus.status_code_table_eq_model", "PEval.KernelStatus.resultCorrect_eq_skeleton", "PEval.KernelStatus.status_eq_skeleton", "PEval.KernelStatus.resultCorrect_eq_skeleton_passfail", "PEval.KernelStatus.status_eq_skeleton_passfail", "PEval.KernelStatus.labelCorrect_code_table_eq_isLabelCorrect", "PEval.KernelStatus.resultCorrect_code_table_eq_isResultCorrect", "PEval.KernelStatus.status_code_table_eq_getStatus", "PEval.KernelStatus.resultCorrect_code_table_eq_passfail", "PEval.KernelStatus.status_code_table_eq_passfail", "PEval.KernelStatus.table_status_tp_sound", "PEval.KernelStatus.table_status_no_gt"]
+)
 RULE = (
     "seeded histories of 1..6 frames; per frame 0..8 ground truths (car/bicycle/pedestrian/motorbike/unknown/FP-labelled) "
     "and 0..8 estimates (perturbed copies of ground truths + strays; labels kept, swapped or unknown) placed around the "
@@ -89,6 +92,8 @@ RULE = (
     "Non-trivial = at least one estimate or ground truth reaches the matcher; distinct = distinct canonical case JSON"
 )
 TRUSTED = [
+    "decision-table translator (harness/dtable.py, harness/dt_match.py): symbolic stubs answer every query of the REAL "
+    "is_label_correct / is_result_correct / get_status from the recorded valuation only; a leak marks the table untranslatable",
     "matcher pairing and plane-distance scores are taken from the real code (C01/C02/C06 cover them); the model starts at the matcher's output "
     "(op 'frame'); in the composed run (op 'pipeline') the model matches itself from the real center-distance table",
     "composed run: matching values, heading weights (TPMetricsAph.get_value) and confidences are taken from the real objects exactly; "
@@ -855,7 +860,13 @@ def oracle(case, out) -> Optional[str]:
 def branches(case, out) -> List[str]:
     if "err" in out:
         return ["err:" + out["err"]]
-    br = [f"task:{case['task']}", f"frame:{case['frame']}", f"policy:{case['policy']}", f"mgr:{case['mgr']['mode']}",
+    br = []
+    if case.get("table_witness"):
+        br.append("table:witness-case")
+    if not _NOTED:
+        _NOTED.append(1)
+        br.append(_table_note()[0])
+    br += [f"task:{case['task']}", f"frame:{case['frame']}", f"policy:{case['policy']}", f"mgr:{case['mgr']['mode']}",
           f"frames:{len(case['frames'])}"]
     nontrivial = False
     for fr, o in zip(case["frames"], out["frames"]):
@@ -1457,6 +1468,10 @@ def _gen_typed_case(rng, pool, tier, frame=None):
 
 
 def generate(rng, tier) -> list:
+    return table_witnesses() + _generate(rng, tier)
+
+
+def _generate(rng, tier) -> list:
     n_pool = 36 if tier == "quick" else 150
     pool = []
     for i in range(n_pool):
@@ -1493,7 +1508,62 @@ def _obj(i, x, y, label="car", yaw=0.0, score=0.875, **kw):
     return o
 
 
-def corpus() -> list:
+TABLE_KEYS = ["labelCorrect", "resultCorrect", "status"]
+_NOTED = []
+
+
+def _table_note():
+    try:
+        from .. import dt_match
+
+        return dt_match.table_note(TABLE_KEYS)
+    except Exception as e:  # noqa: BLE001 - the table machinery must never fail a check
+        return "table:untranslatable", {"error": f"{type(e).__name__}: {e}"}
+
+
+def _realise_status(val):
+    """history cases (one frame, one estimate at a chosen offset from one ground truth, the pass/fail threshold placed by the
+    order atom of the plane distance) realising a valuation of get_status / is_result_correct; PassFailResult.evaluate always
+    selects the plane distance, so valuations of the other modes are not realisable through this entry point"""
+    from .. import dt_match
+
+    mode = dt_match._mode_of(val)
+    if mode not in (None, "PLANEDISTANCE") or val.get("gt.none") is True or val.get("thr.none") is True:
+        return []
+    L4 = ["car", "bicycle", "pedestrian", "motorbike"]
+    mgr = {"labels": L4, "mode": "box", "a": [100.0] * 4, "b": [100.0] * 4, "min_points": [0] * 4, "conf": None, "radii": None}
+    crit = {"labels": L4, "mode": "box", "a": [30.0] * 4, "b": [30.0] * 4, "min_points": None, "conf": None}
+    glab = "FP" if val.get("gt.fp") else "car"
+    elab = "bicycle" if val.get("matchable") is False else "car"
+    out = []
+    for off, t in dt_match._pairs("PLANEDISTANCE", val, "thr")[:8]:
+        if t != t or t in (float("inf"), -float("inf")) or t > 1e6:
+            continue
+        fr = {"time": 100000, "ego": {"yaw": 0.0, "tx": 0.0, "ty": 0.0}, "gts": [_obj(101, 5.0, 0.0, glab), _obj(102, 20.0, 5.0)],
+              "ests": [_obj(1, 5.0 + off, 0.0, elab)], "crit": crit, "pf": {"labels": L4, "thr": [t] * 4}}
+        for task in ("detection", "fp_validation"):
+            for frame in ("base_link", "map"):
+                out.append({"kind": "history", "task": task, "frame": frame, "policy": "default", "mgr": mgr, "frames": [fr]})
+    return out
+
+
+def extra_evidence():
+    key, info = _table_note()
+    return {"decision_tables": info, "decision_tables_status": key}
+
+
+def table_witnesses():
+    """cases realising the valuations on which a regenerated decision table and its model skeleton differ (empty on an
+    unchanged tree); they are run FIRST"""
+    try:
+        from .. import dt_match
+
+        return dt_match.witness_cases(["status", "resultCorrect"], _realise_status)
+    except Exception:  # noqa: BLE001
+        return []
+
+
+def _corpus() -> list:
     L4 = ["car", "bicycle", "pedestrian", "motorbike"]
     mgr = {"labels": L4, "mode": "box", "a": [100.0] * 4, "b": [100.0] * 4, "min_points": [0] * 4, "conf": None, "radii": None}
     crit30 = {"labels": L4, "mode": "box", "a": [30.0] * 4, "b": [30.0] * 4, "min_points": None, "conf": None}
@@ -1667,7 +1737,7 @@ def shrink(case):
 
 def search(rng, st, disagreements) -> list:
     """neighbourhood of the diverging cases: the other rendering, every policy, both tasks"""
-    out = []
+    out = table_witnesses()
     for d in disagreements[:8]:
         c0 = d["case"]
         for frame in ("base_link", "map"):
@@ -1675,3 +1745,8 @@ def search(rng, st, disagreements) -> list:
                 c = copy.deepcopy(c0); c["frame"] = frame; c["policy"] = pol
                 out.append(c)
     return out
+
+
+def corpus():
+    """table witnesses (empty on an unchanged tree) first, then the stored corner cases"""
+    return table_witnesses() + list(_corpus())
